@@ -10,6 +10,8 @@ import (
 	"bytes"
 	"crypto/sha256"
 	"encoding/hex"
+	"encoding/json"
+	"io/ioutil"
 	"fmt"
 	"sort"
 	"strings"
@@ -722,6 +724,11 @@ func (l *ledger) checkInfo(n *simNode) {
 			l.violate("info", "snapshot-index-decreased", fmt.Sprintf("node %d: snapshot index %d -> %d", n.id, old.snapIdx, cur.snapIdx))
 		}
 	}
+	if old := l.info[n.idx]; old == nil || old.inc != n.inc || old.snapIdx != cur.snapIdx {
+		if cur.snapIdx > 0 {
+			l.checkSnapshot(n)
+		}
+	}
 	l.info[n.idx] = cur
 	first := r.log.PrevIndex() + 1
 	if cur.applied > cur.commit {
@@ -749,10 +756,73 @@ func (l *ledger) checkInfo(n *simNode) {
 			break
 		}
 	}
+	if newest == 0 && r.snaps.index > 0 {
+		if want := l.newestConfigAtOrBelow(r.snaps.index); want != 0 && r.configs.Latest.Index < want {
+			l.violate("label", "membership-older-than-snapshot-index", fmt.Sprintf("node %d: its log holds no config entry, snapshot index is %d, latest config is %d {%s} but config %d {%s} was committed at or below the snapshot index", n.id, r.snaps.index, r.configs.Latest.Index, canonConfig(r.configs.Latest), want, l.configs[want]))
+		}
+	}
 	if newest != 0 {
 		if r.configs.Latest.Index != newest || canonConfig(r.configs.Latest) != newestCfg {
 			l.violate("info", "latest-config-not-newest-entry", fmt.Sprintf("node %d: latest config is %d {%s} but newest config entry in its log is %d {%s}", n.id, r.configs.Latest.Index, canonConfig(r.configs.Latest), newest, newestCfg))
 		}
+	}
+}
+
+// newestConfigAtOrBelow returns the index of the newest committed
+// configuration entry with index <= i (0 if unknown).
+func (l *ledger) newestConfigAtOrBelow(i uint64) uint64 {
+	var best uint64
+	for idx := range l.configs {
+		if idx <= i && idx > best {
+			best = idx
+		}
+	}
+	return best
+}
+
+// checkSnapshot validates a snapshot that became the node's latest (taken
+// locally, installed, or found at restart): label (C12) and contents (C09).
+func (l *ledger) checkSnapshot(n *simNode) {
+	r := n.r
+	l.stats.snapshots++
+	meta, err := r.snaps.meta()
+	if err != nil {
+		l.violate("alive", "snapshot-meta-unreadable", fmt.Sprintf("node %d: %v", n.id, err))
+		return
+	}
+	c, ok := l.committed[meta.index]
+	if !ok {
+		l.violate("snapshot", "snapshot-of-uncommitted-index", fmt.Sprintf("node %d stored a snapshot at index %d which was never committed", n.id, meta.index))
+		return
+	}
+	if c.Term != meta.term {
+		l.violate("label", "snapshot-term-wrong", fmt.Sprintf("node %d: snapshot at index %d is labelled term %d, the committed entry has term %d", n.id, meta.index, meta.term, c.Term))
+	}
+	if want := l.newestConfigAtOrBelow(meta.index); want != 0 && meta.config.Index < want {
+		l.violate("label", "snapshot-labelled-with-older-config", fmt.Sprintf("node %d: snapshot at index %d is labelled with config %d {%s} but config %d {%s} is the membership in force at that index", n.id, meta.index, meta.config.Index, canonConfig(meta.config), want, l.configs[want]))
+	} else if want != 0 && meta.config.Index == want && canonConfig(meta.config) != l.configs[want] {
+		l.violate("label", "snapshot-config-differs", fmt.Sprintf("node %d: snapshot at index %d carries config %d {%s}, the committed config entry %d is {%s}", n.id, meta.index, meta.config.Index, canonConfig(meta.config), want, l.configs[want]))
+	}
+	// contents: exactly the committed updates up to the index
+	snap, err := r.snaps.open()
+	if err != nil {
+		l.violate("alive", "snapshot-unopenable", fmt.Sprintf("node %d: %v", n.id, err))
+		return
+	}
+	b, _ := ioutil.ReadAll(snap.file)
+	snap.release()
+	var got []string
+	if len(bytes.TrimSpace(b)) > 0 {
+		_ = json.Unmarshal(b, &got)
+	}
+	var want []string
+	for i := uint64(1); i <= meta.index; i++ {
+		if ce, ok := l.committed[i]; ok && ce.Typ == entryUpdate {
+			want = append(want, ce.Hash)
+		}
+	}
+	if strings.Join(got, ",") != strings.Join(want, ",") {
+		l.violate("snapshot", "snapshot-contents-differ-from-committed-prefix", fmt.Sprintf("node %d: snapshot at index %d contains [%s], committed updates up to there are [%s]", n.id, meta.index, strings.Join(got, ","), strings.Join(want, ",")))
 	}
 }
 
